@@ -16,6 +16,7 @@ EXPLANATION = ("codec-agreement, layout and constant rules against RFC 2131 / 79
                "the one's-complement sum has the RFC 1071 shape")
 ASSUMPTIONS = ["not decided: decode(encode(m)) = m for all m; numerical correctness of the checksum beyond its shape",
                "a computed UDP checksum of 0 is not mapped to 0xFFFF (observed, outside the clauses checked; DESIGN.md 7.1)"]
+EXPLANATION += "; also: the checksum folds all carries; a fixed field of width l carries l octets; the decoder's option map is only filled, never edited, and the encoder writes every entry from the entry itself"
 EXTRA_CONFIGS = ["dhcp"]
 
 READ_WIDTH = {"get_u8": 1, "get_be16": 2, "get_be32": 4, "get_ipv4": 4, "get_u16": 2, "get_u32": 4}
